@@ -4,6 +4,7 @@ package config
 
 import (
 	"errors"
+	"io"
 	"runtime"
 	"time"
 
@@ -121,11 +122,14 @@ func VerifH20b() {
 		return "", false
 	}
 	// the file layer: which fields the file contains is symbolic, and so are the numeric values
-	useFile := nd.Choice("file", 3) // 0 none, 1 readable, 2 missing
+	useFile := nd.Choice("file", 4) // 0 none, 1 readable, 2 missing, 3 readable but without a YAML document (empty, comments only)
 	pPort, pDir, pGC, pNW, pSD := nd.Bool("file.port"), nd.Bool("file.maxDirCount"), nd.Bool("file.gcPeriod"), nd.Bool("file.numWorkers"), nd.Bool("file.sendDuration")
 	vPort, vDir, vGC, vNW, vSD := nd.U64("fv.port"), nd.U64("fv.maxDirCount"), nd.U64("fv.gcPeriod"), nd.U64("fv.numWorkers"), nd.U64("fv.sendDuration")
 	fileDb, fileRoots := nd.Choice("file.dbPath", 2) == 1, nd.Choice("file.rootDirs", 2) == 1
 	verifenv.YamlHook = func(v interface{}) error {
+		if useFile == 3 {
+			return io.EOF // what yaml.v2's Decode returns when the input holds no document
+		}
 		c := v.(*Config)
 		c.Port = int(nd.IteU64(pPort, vPort, uint64(c.Port)))
 		c.Storage.MaxDirCount = nd.IteU64(pDir, vDir, c.Storage.MaxDirCount)
@@ -147,6 +151,9 @@ func VerifH20b() {
 		verifenv.FS.PutFile(name, []byte("x"))
 	case 2:
 		name = "missing.yaml"
+	case 3:
+		name = "empty.yaml"
+		verifenv.FS.PutFile(name, nil)
 	}
 	inFile := useFile == 1
 
